@@ -148,134 +148,267 @@ func c16Multi(c *Ctx, prog *load.Program, name string) {
 	c.R.Floor("C16-2", 26)
 }
 
-// c16Shape: every loop over the inputs is `for j := 0; j < l; j++` with l = len(scalars).
+// c16Shape: every loop over the inputs is `for j := 0; j < l; j++` with l = len(scalars) and touches entry j only; no
+// branch distinguishes list lengths above 3.  The loops may live in the routine itself, in function literals of it, or
+// in module helpers that receive the two lists.
+type c16Ctx struct {
+	fn        *ssa.Function
+	scal, pts ssa.Value // the values denoting the two input lists in fn
+	parent    *c16Ctx
+	mc        *ssa.MakeClosure // for a function literal: the instruction of the parent that creates it
+}
+
 func c16Shape(c *Ctx, prog *load.Program, name string) {
 	fn := absint.FindFunc(prog.SSA, Method(models.PointType, name))
 	if fn == nil {
 		return
 	}
 	pos := PosOf(prog, fn)
-	var lenVal ssa.Value
-	for _, b := range fn.Blocks {
-		for _, in := range b.Instrs {
-			if call, ok := in.(*ssa.Call); ok {
-				if bi, isB := call.Common().Value.(*ssa.Builtin); isB && bi.Name() == "len" && call.Common().Args[0] == ssa.Value(fn.Params[1]) {
-					lenVal = call
-				}
-			}
-		}
-	}
-	if lenVal == nil {
-		c.R.Unknown("C16-2", "shape/"+name+"@"+prog.Config.Name, pos, "len(scalars) not found")
+	if len(fn.Params) < 3 {
+		c.R.Unknown("C16-2", "shape/"+name+"@"+prog.Config.Name, pos, "unexpected signature")
 		return
 	}
-	// values equal to l = len(scalars): len of either input list (the length guard - rule multi/.../mismatch - makes
-	// them equal), len of a slice made with such a length
-	var equalL func(v ssa.Value, depth int) bool
-	equalL = func(v ssa.Value, depth int) bool {
-		if v == lenVal {
+	isConst := func(v ssa.Value, k int64) bool {
+		c, ok := v.(*ssa.Const)
+		return ok && c.Value != nil && c.Int64() == k
+	}
+	// isList: v denotes one of the two input lists (equal in length by the guard - rule multi/.../mismatch), or a
+	// slice made with their length
+	var equalL func(cx *c16Ctx, v ssa.Value, depth int) bool
+	var isList func(cx *c16Ctx, v ssa.Value, depth int) bool
+	// cellValue: the single value stored in a local variable that lives in memory (captured by a function literal)
+	cellValue := func(cx *c16Ctx, a *ssa.Alloc) ssa.Value {
+		var val ssa.Value
+		n := 0
+		for _, r := range *a.Referrers() {
+			switch x := r.(type) {
+			case *ssa.Store:
+				if x.Addr != ssa.Value(a) {
+					return nil // the address itself is stored somewhere
+				}
+				val = x.Val
+				n++
+			case *ssa.UnOp, *ssa.DebugRef:
+			case *ssa.MakeClosure:
+				// the literal must not assign to the variable
+				lit := x.Fn.(*ssa.Function)
+				for i, b := range x.Bindings {
+					if b != ssa.Value(a) || i >= len(lit.FreeVars) {
+						continue
+					}
+					for _, fr := range *lit.FreeVars[i].Referrers() {
+						if st, isSt := fr.(*ssa.Store); isSt && st.Addr == ssa.Value(lit.FreeVars[i]) {
+							return nil
+						}
+						if _, isLoad := fr.(*ssa.UnOp); !isLoad {
+							if _, isDbg := fr.(*ssa.DebugRef); !isDbg {
+								return nil
+							}
+						}
+					}
+				}
+			default:
+				return nil
+			}
+		}
+		if n != 1 {
+			return nil
+		}
+		return val
+	}
+	// resolve: look through loads of single-assignment variables, also across a function literal's captured variables
+	resolve := func(cx *c16Ctx, v ssa.Value) (*c16Ctx, ssa.Value) {
+		for i := 0; i < 6; i++ {
+			ld, ok := v.(*ssa.UnOp)
+			if !ok || ld.Op.String() != "*" {
+				return cx, v
+			}
+			switch x := ld.X.(type) {
+			case *ssa.Alloc:
+				w := cellValue(cx, x)
+				if w == nil {
+					return cx, v
+				}
+				v = w
+			case *ssa.FreeVar:
+				if cx.parent == nil || cx.mc == nil {
+					return cx, v
+				}
+				idx := -1
+				for k, fv := range cx.fn.FreeVars {
+					if fv == x {
+						idx = k
+					}
+				}
+				if idx < 0 || idx >= len(cx.mc.Bindings) {
+					return cx, v
+				}
+				a, isA := cx.mc.Bindings[idx].(*ssa.Alloc)
+				if !isA {
+					return cx, v
+				}
+				w := cellValue(cx.parent, a)
+				if w == nil {
+					return cx, v
+				}
+				cx, v = cx.parent, w
+			default:
+				return cx, v
+			}
+		}
+		return cx, v
+	}
+	isList = func(cx *c16Ctx, v ssa.Value, depth int) bool {
+		if depth > 6 {
+			return false
+		}
+		cx, v = resolve(cx, v)
+		if v == cx.scal || v == cx.pts {
 			return true
 		}
+		if ms, ok := v.(*ssa.MakeSlice); ok {
+			return equalL(cx, ms.Len, depth+1)
+		}
+		return false
+	}
+	equalL = func(cx *c16Ctx, v ssa.Value, depth int) bool {
+		if depth > 6 {
+			return false
+		}
+		cx, v = resolve(cx, v)
 		call, ok := v.(*ssa.Call)
-		if !ok || depth > 4 {
+		if !ok {
 			return false
 		}
 		bi, isB := call.Common().Value.(*ssa.Builtin)
 		if !isB || bi.Name() != "len" {
 			return false
 		}
-		switch x := call.Common().Args[0].(type) {
-		case *ssa.Parameter:
-			return x == fn.Params[1] || x == fn.Params[2]
-		case *ssa.MakeSlice:
-			return equalL(x.Len, depth+1)
-		}
-		return false
-	}
-	isConst := func(v ssa.Value, k int64) bool {
-		c, ok := v.(*ssa.Const)
-		return ok && c.Value != nil && c.Int64() == k
+		return isList(cx, call.Common().Args[0], depth+1)
 	}
 	loops, good := 0, true
 	detail := ""
-	for _, b := range fn.Blocks {
-		ifi, ok := b.Instrs[len(b.Instrs)-1].(*ssa.If)
-		if !ok {
-			continue
+	visited := map[*ssa.Function]bool{}
+	var analyse func(cx *c16Ctx, depth int)
+	analyse = func(cx *c16Ctx, depth int) {
+		if visited[cx.fn] || depth > 4 {
+			return
 		}
-		cmp, ok := ifi.Cond.(*ssa.BinOp)
-		if !ok || cmp.Op.String() != "<" || !equalL(cmp.Y, 0) {
-			continue
-		}
-		// the index value is the left operand of the comparison: either the counter itself (`for j := 0; j < l; j++`:
-		// phi(0, phi+1)) or the incremented counter of a range loop (phi(-1, phi+1) with the test on phi+1)
-		idx := cmp.X
-		var phi *ssa.Phi
-		okPhi := false
-		switch x := idx.(type) {
-		case *ssa.Phi:
-			phi = x
-			if len(x.Edges) == 2 {
-				for i, e := range x.Edges {
-					if st, isB := x.Edges[1-i].(*ssa.BinOp); isB && isConst(e, 0) && st.Op.String() == "+" && st.X == ssa.Value(x) && isConst(st.Y, 1) {
-						okPhi = true
+		visited[cx.fn] = true
+		for _, b := range cx.fn.Blocks {
+			for _, in := range b.Instrs {
+				switch x := in.(type) {
+				case *ssa.MakeClosure:
+					analyse(&c16Ctx{fn: x.Fn.(*ssa.Function), parent: cx, mc: x}, depth+1)
+				case ssa.CallInstruction:
+					g := x.Common().StaticCallee()
+					if g == nil || g.Blocks == nil || g.Pkg == nil || !load.IsModulePkg(g.Pkg.Pkg.Path()) || g == cx.fn {
+						continue
+					}
+					// a helper that receives both lists
+					var gs, gp ssa.Value
+					for i, a := range x.Common().Args {
+						if i >= len(g.Params) {
+							break
+						}
+						_, ra := resolve(cx, a)
+						if ra == cx.scal && cx.scal != nil {
+							gs = g.Params[i]
+						}
+						if ra == cx.pts && cx.pts != nil {
+							gp = g.Params[i]
+						}
+					}
+					if gs != nil && gp != nil {
+						analyse(&c16Ctx{fn: g, scal: gs, pts: gp}, depth+1)
 					}
 				}
 			}
-		case *ssa.BinOp:
-			if p, isPhi := x.X.(*ssa.Phi); isPhi && x.Op.String() == "+" && isConst(x.Y, 1) && len(p.Edges) == 2 {
-				phi = p
-				for i, e := range p.Edges {
-					if isConst(e, -1) && p.Edges[1-i] == ssa.Value(x) {
-						okPhi = true
-					}
-				}
-			}
 		}
-		if phi == nil {
-			continue
-		}
-		loops++
-		if !okPhi {
-			good, detail = false, "a loop over the inputs does not run j = 0, 1, ..., l-1"
-		}
-		// every index expression using the loop index inside the body indexes pTbls / sBytes / points / scalars with j itself
-		for _, r := range *idx.Referrers() {
-			switch x := r.(type) {
-			case *ssa.IndexAddr:
-				if x.Index != idx {
-					good, detail = false, "loop counter used in a derived index"
-				}
-			case *ssa.BinOp, *ssa.Phi, *ssa.DebugRef:
-			default:
-				good, detail = false, fmt.Sprintf("unexpected use of the loop counter (%T)", r)
-			}
-		}
-	}
-	// the instances cover the lengths 0..3; a branch that distinguishes larger lengths (a batch-size threshold, a
-	// special case for some length above 3) would be decided by none of them and by no loop argument
-	for _, b := range fn.Blocks {
-		ifi, ok := b.Instrs[len(b.Instrs)-1].(*ssa.If)
-		if !ok {
-			continue
-		}
-		cmp, ok := ifi.Cond.(*ssa.BinOp)
-		if !ok {
-			continue
-		}
-		for _, pr := range [][2]ssa.Value{{cmp.X, cmp.Y}, {cmp.Y, cmp.X}} {
-			if !equalL(pr[0], 0) {
+		for _, b := range cx.fn.Blocks {
+			if len(b.Instrs) == 0 {
 				continue
 			}
-			if k, isC := pr[1].(*ssa.Const); isC && k.Value != nil {
-				if k.Int64() > 3 {
-					good, detail = false, fmt.Sprintf("the routine branches on the list length against %d (%s): lengths above 3 are decided by the loop argument only, which does not cover a length-dependent special case", k.Int64(), PosStr(prog, cmp.Pos()))
+			ifi, ok := b.Instrs[len(b.Instrs)-1].(*ssa.If)
+			if !ok {
+				continue
+			}
+			cmp, ok := ifi.Cond.(*ssa.BinOp)
+			if !ok {
+				continue
+			}
+			// the instances cover the lengths 0..3; a branch that distinguishes larger lengths (a batch-size threshold,
+			// a special case for some length above 3) would be decided by none of them and by no loop argument
+			for _, pr := range [][2]ssa.Value{{cmp.X, cmp.Y}, {cmp.Y, cmp.X}} {
+				if !equalL(cx, pr[0], 0) {
+					continue
+				}
+				if k, isC := pr[1].(*ssa.Const); isC && k.Value != nil {
+					if k.Int64() > 3 {
+						good, detail = false, fmt.Sprintf("the routine branches on the list length against %d (%s): lengths above 3 are decided by the loop argument only, which does not cover a length-dependent special case", k.Int64(), PosStr(prog, cmp.Pos()))
+					}
+				}
+			}
+			if cmp.Op.String() != "<" || !equalL(cx, cmp.Y, 0) {
+				continue
+			}
+			// the index value is the left operand of the comparison: either the counter itself (`for j := 0; j < l;
+			// j++`: phi(0, phi+1)) or the incremented counter of a range loop (phi(-1, phi+1) with the test on phi+1)
+			idx := cmp.X
+			var phi *ssa.Phi
+			okPhi := false
+			switch x := idx.(type) {
+			case *ssa.Phi:
+				phi = x
+				if len(x.Edges) == 2 {
+					for i, e := range x.Edges {
+						if st, isB := x.Edges[1-i].(*ssa.BinOp); isB && isConst(e, 0) && st.Op.String() == "+" && st.X == ssa.Value(x) && isConst(st.Y, 1) {
+							okPhi = true
+						}
+					}
+				}
+			case *ssa.BinOp:
+				if p, isPhi := x.X.(*ssa.Phi); isPhi && x.Op.String() == "+" && isConst(x.Y, 1) && len(p.Edges) == 2 {
+					phi = p
+					for i, e := range p.Edges {
+						if isConst(e, -1) && p.Edges[1-i] == ssa.Value(x) {
+							okPhi = true
+						}
+					}
+				}
+			}
+			if phi == nil {
+				continue
+			}
+			loops++
+			if !okPhi {
+				good, detail = false, "a loop over the inputs does not run j = 0, 1, ..., l-1"
+			}
+			// every index expression using the loop index inside the body indexes pTbls / sBytes / points / scalars with j itself
+			for _, r := range *idx.Referrers() {
+				switch x := r.(type) {
+				case *ssa.IndexAddr:
+					if x.Index != idx {
+						good, detail = false, "loop counter used in a derived index"
+					}
+				case *ssa.BinOp:
+					// the loop test itself and the increment; any other arithmetic or comparison on the counter (a second
+					// bound, a special case for some position) is not uniform in the list position
+					if x != cmp && !(x.Op.String() == "+" && x.X == idx && isConst(x.Y, 1)) {
+						good, detail = false, fmt.Sprintf("the loop counter is used in %s at %s besides the loop test and the increment", x.Op, PosStr(prog, x.Pos()))
+					}
+				case *ssa.Phi, *ssa.DebugRef:
+				default:
+					good, detail = false, fmt.Sprintf("unexpected use of the loop counter (%T)", r)
 				}
 			}
 		}
 	}
-	if loops != 3 {
-		good, detail = false, fmt.Sprintf("%d loops bounded by len(scalars), expected 3 (preparation, high nibbles, low nibbles)", loops)
+	analyse(&c16Ctx{fn: fn, scal: fn.Params[1], pts: fn.Params[2]}, 0)
+	// how many such loops there are is free (preparation, high nibbles, low nibbles on the reference tree; one loop per
+	// window in other arrangements): the instances decide the values, this rule that all positions are treated alike
+	if loops < 1 {
+		good, detail = false, "no loop bounded by len(scalars) found (the positions of the list are not processed by loops over 0..l-1 in this routine, its function literals or the helpers that receive both lists)"
 	}
-	c.R.Decide(good, "C16-2", "shape/"+name+"@"+prog.Config.Name, pos, "the three loops over the inputs run j = 0..l-1 and index entry j only", detail)
+	c.R.Decide(good, "C16-2", "shape/"+name+"@"+prog.Config.Name, pos, fmt.Sprintf("the %d loops over the inputs run j = 0..l-1 and index entry j only", loops), detail)
 }
